@@ -265,8 +265,9 @@ class Interp:
     MAX_CALL_DEPTH = 12
     MAX_LOOP_DEPTH = 6
 
-    def __init__(self, data):
+    def __init__(self, data, guard=True):
         self.data = data
+        self.guard = guard  # False: also decide the "assigned later in an enclosing scope" reads (known finding F38)
         self.steps = 0
         self.seq = 0
         self.labels = set()
@@ -322,7 +323,7 @@ class Interp:
             s, first = s.parent, False
         if not found and name in self.data:
             found, val = True, self.data[name]
-        if crossed and found:
+        if crossed and found and self.guard:
             raise Ambiguous("read of %r through a scope that assigns it later" % name)
         if not found:
             return Undef(name)
@@ -689,8 +690,8 @@ class Interp:
         return "".join(out)
 
 
-def interpret_ex(prog, data):
-    it = Interp(data)
+def interpret_ex(prog, data, guard=True):
+    it = Interp(data, guard)
     try:
         return Result("ok", it.run(prog), it.labels)
     except RefError as e:
